@@ -225,6 +225,8 @@ class QuicSession:
             else:
                 associated_data = quic_packet.first_byte + quic_packet.dcid + quic_packet.packet_num
             payload = decryptor.decrypt(quic_packet.payload, packet_number, associated_data, quic_packet.isserver)
+            # only an authenticated packet may raise the largest packet number of its space
+            self.set_largest_packet_number(quic_packet, int.from_bytes(packet_number, "big", signed=False))
 
             frames = parse_frames(payload, quic_packet)
 
@@ -362,11 +364,6 @@ class QuicSession:
         packet_number_int = int.from_bytes(quic_packet.packet_num, "big", signed=False)
 
         if packet_number_int > largest_pkn == 0:
-            if quic_packet.isserver:
-                self.packet_number_server[PACKET_TYPE_MAP[quic_packet.packet_type]] = packet_number_int
-            else:
-                self.packet_number_client[PACKET_TYPE_MAP[quic_packet.packet_type]] = packet_number_int
-
             return quic_packet.packet_num
 
         truncated_pkn = packet_number_int
@@ -388,13 +385,16 @@ class QuicSession:
         else:
             out_pkn = candidate_pkn
 
-        if out_pkn > largest_pkn:
-            if quic_packet.isserver:
-                self.packet_number_server[PACKET_TYPE_MAP[quic_packet.packet_type]] = out_pkn
-            else:
-                self.packet_number_client[PACKET_TYPE_MAP[quic_packet.packet_type]] = out_pkn
-
         return int.to_bytes(out_pkn, 8, "big", signed=False)
+
+    def set_largest_packet_number(self, quic_packet: ShortQuicPacket | LongQuicPacket, packet_number: int):
+        """RFC 9000 A.3: largest_pn is the largest packet number of a packet that was successfully processed"""
+        if quic_packet.isserver:
+            if packet_number > self.packet_number_server[PACKET_TYPE_MAP[quic_packet.packet_type]]:
+                self.packet_number_server[PACKET_TYPE_MAP[quic_packet.packet_type]] = packet_number
+        else:
+            if packet_number > self.packet_number_client[PACKET_TYPE_MAP[quic_packet.packet_type]]:
+                self.packet_number_client[PACKET_TYPE_MAP[quic_packet.packet_type]] = packet_number
 
     def set_tls_decryptors(self, client_random, ciphersuite: bytes):
 
